@@ -935,8 +935,13 @@ PROPS["C12"] = dict(
            ("parse", {"quick": 30, "thorough": 300}, [], "san"),
            # the receiving side of the shuffle / rotation argument verifiers: mutated, re-proved and forged transcripts for
            # malformed statements (prop.args.malformed), order of checks compared with the model (oracle-unused)
-           ("args", {"quick": 11, "thorough": 22}, [], "fast")],
-    obligations=[("Tmcg.C12.imported_indices_in_range", "full"), ("Tmcg.C12.import_alloc_bound", "full"),
+           ("args", {"quick": 11, "thorough": 22}, [], "fast"),
+           # boundary generator for the OpenPGP packet / subpacket decoders, verdict and consumed length compared with the bounds model
+           ("parse2", {"quick": 300, "thorough": 2000}, [], "san")],
+    obligations=[("Tmcg.C12.pgp_capacities_are_the_headers", "full"), ("Tmcg.C12.pgp_every_access_in_bounds", "full"),
+                 ("Tmcg.C12.pgp_consumes_at_most_input", "full"), ("Tmcg.C12.pgp_decode_in_bounds", "full"),
+                 ("Tmcg.C12.pgp_subpacket_in_bounds", "full"), ("Tmcg.C12.pgp_copy_accepts_iff", "full"),
+                 ("Tmcg.C12.imported_indices_in_range", "full"), ("Tmcg.C12.import_alloc_bound", "full"),
                  ("Tmcg.C12.remask_never_traps", "full"), ("Tmcg.C12.mix_never_traps", "full"),
                  ("Tmcg.C12.verifier_index_safe", "full"), ("Tmcg.C12.size_mismatch_aborts", "full")],
     predicate=pred_c12,
